@@ -29,7 +29,9 @@ fn any_sub(filter: &str) -> (Subscription, u8, bool, bool, u8) {
         retain_handling_type: match rh { 0 => RetainHandlingType::SendOnSubscribe, 1 => RetainHandlingType::SendOnSubscribeIfNew, _ => RetainHandlingType::DontSend } }, q, nl, rap, rh)
 }
 
-fn subscribe_body(v5: bool, two: bool, with_sid: bool, with_prop: bool, cap: usize) {
+fn subscribe_body(v5: bool, two: bool, with_sid: bool, with_prop: bool, cap: usize) { subscribe_body_len(v5, two, with_sid, with_prop, cap, 2) }
+
+fn subscribe_body_len(v5: bool, two: bool, with_sid: bool, with_prop: bool, cap: usize, value_len: usize) {
     let pid: u16 = kani::any();
     let sid: u32 = kani::any();
     kani::assume(sid >= 1 && sid <= 268_435_455);
@@ -39,7 +41,7 @@ fn subscribe_body(v5: bool, two: bool, with_sid: bool, with_prop: bool, cap: usi
     if two { subs.push(s2); }
     let inner = SubscribePacket { packet_id: pid, subscriptions: subs,
         subscription_identifier: if with_sid { Some(sid) } else { None },
-        user_properties: if with_prop { Some(vec![UserProperty { name: "n".to_string(), value: "vv".to_string() }]) } else { None } };
+        user_properties: if with_prop { Some(vec![UserProperty { name: "n".to_string(), value: unsafe { String::from_utf8_unchecked(vec![b'v'; value_len]) } }]) } else { None } };
     let c = ctx(if v5 { ProtocolVersion::Mqtt5 } else { ProtocolVersion::Mqtt311 }, OutboundAliasResolution::default());
     let mut steps: VecDeque<EncodingStep> = VecDeque::with_capacity(cap);
     let r = if v5 { write_subscribe_encoding_steps5(&inner, &c, &mut steps) } else { write_subscribe_encoding_steps311(&inner, &c, &mut steps) };
@@ -53,7 +55,7 @@ fn subscribe_body(v5: bool, two: bool, with_sid: bool, with_prop: bool, cap: usi
         w.in_props = true;
         // MQTT5 3.8.2.1.2: Subscription Identifier (0x0B) is a Variable Byte Integer
         if with_sid { w.u8(11); w.vbi(sid); }
-        if with_prop { w.u8(38); w.lp(F_UP_NAME, 0, 1); w.lp(F_UP_VALUE, 0, 2); }
+        if with_prop { w.u8(38); w.lp(F_UP_NAME, 0, 1); w.lp(F_UP_VALUE, 0, value_len); }
         w.in_props = false;
         let plen = w.bytes_from(pl + 1, true);
         w.fill(pl, plen);
@@ -92,3 +94,11 @@ fn c02_subscribe5_two_prop() { subscribe_body(true, true, false, true, 16) }
 #[kani::unwind(12)]
 #[kani::stub(std::fmt::format, stub_format)]
 fn c02_subscribe311() { subscribe_body(false, true, true, true, 16) }
+
+// @gv props=C02 tier=quick required=yes fns=write_subscribe_encoding_steps5,compute_subscribe_packet_length_properties5
+// @gv bounds="SUBSCRIBE/MQTT5 with a subscription identifier (symbolic) and a user property value of 130 bytes: property section and remaining length both cross the one-byte VBI boundary"
+// @gv timeout=1200 mem=12
+#[kani::proof]
+#[kani::unwind(18)]
+#[kani::stub(std::fmt::format, stub_format)]
+fn c02_subscribe5_vbi_boundary() { subscribe_body_len(true, false, true, true, 16, 130) }
